@@ -45,3 +45,29 @@ func debugGuards(args []string) {
 		}
 	}
 }
+
+// gdsa indexes <pkg...>: list index/slice sites (debug aid)
+func debugIndexes(pkgs []string) {
+	p, err := LoadRepo("", nil)
+	if err != nil {
+		fmt.Println(err)
+		os.Exit(2)
+	}
+	tm := newTermer()
+	for _, fn := range p.SrcFuncs(pkgs...) {
+		for _, b := range fn.Blocks {
+			for _, ins := range b.Instrs {
+				switch x := ins.(type) {
+				case *ssa.Index:
+					fmt.Printf("%s %s INDEX %s\n", p.Pos(x.Pos()), fname(fn), tm.term(x))
+				case *ssa.IndexAddr:
+					fmt.Printf("%s %s INDEXADDR %s\n", p.Pos(x.Pos()), fname(fn), tm.term(x))
+				case *ssa.Slice:
+					fmt.Printf("%s %s SLICE %s\n", p.Pos(x.Pos()), fname(fn), tm.term(x))
+				case *ssa.TypeAssert:
+					fmt.Printf("%s %s ASSERT commaok=%v %s\n", p.Pos(x.Pos()), fname(fn), x.CommaOk, tm.term(x.X))
+				}
+			}
+		}
+	}
+}
